@@ -13,7 +13,8 @@ func VP_C13_HeightMapFill() {
 	h := NewHeightMap(model2d.XY(-1, -1), model2d.XY(1, 1), 3)
 	p := &model2d.Circle{Radius: 1}
 	vp.ExploreSchedules()
-	h.AddSpheresSDF(p, vp.Param("spheres"), 0.01, 0)
+	// maxr=1: a sphere-size limit below the shape's inradius, so the fill branch (AddSphereFill) runs
+	h.AddSpheresSDF(p, vp.Param("spheres"), 0.01, 0.25*float64(vp.Param("maxr")))
 	vp.Assert(h.MaxHeight() >= 0, "height map filled")
 	vp.Reach("end")
 }
